@@ -209,6 +209,9 @@ BATTERIES['Utils'] = [
   ('soc', 'List.concat (map (fun se => List.concat (map (fun r => enc_v (@M@.soc_gen r (fst se) (snd se))) [va; vb; vc; [-3; 2; -3; 0; 1]; [1#2]; []])) [(1, 1); (1#2, 3#4); (3#4, 1#2); (1, 1#2); (1#2, -2)])'),
 ]
 LOADERS = '''
+From Coq Require Import String.
+Import List ListNotations.
+Local Open Scope Q_scope.
 Definition enc_out (r : outcome (list Q)) : list Q := match r with Accept v => 0 :: enc_v v | RaiseValueError => [1] | RaiseOther => [2] end.
 Definition enc_cb (c : cbound Q) : list Q := match c with (lo, hi, s, e) => [lo; hi; inject_Z (Z.of_nat s); inject_Z (Z.of_nat e)] end.
 Definition runsQ : list (runs Q) := [[(0%nat, 1); (3%nat, 3); (1%nat, 2)]; [(2%nat, 5)]; [(0%nat, 7)]; [(0%nat, 1); (5%nat, 2); (9%nat, 4)];
@@ -218,6 +221,22 @@ Definition runsP : list (runs (Q * Q)) := [[(0%nat, (1, 2)); (3%nat, (3, 4)); (1
 Definition bnds : list (list (param Q)) := [[PS 2; PS 5]; [PS (-1); PV [1; 2; 3; 4; 5; 6]]; [PV [1; 2; 3; 4; 5; 6]; PV [2; 3; 4; 5; 6; 7]];
   [PS 1; PS 2; PS 3; PS 4; PS 5; PS 6]; [PS 4]; []; [PS 1; PS 2; PS 3]].
 Definition masks : list (list Q) := [[1; 0; 1; 0; 0; 1]; [0; 0; 0; 0; 0; 0]; [1; 1; 1]; []; [1#2; 2; 0; 1; 1; 1]].
+Definition enc_opt (o : option Q) : list Q := match o with Some v => [1; v] | None => [0] end.
+Definition enc_str (s : String.string) : list Q := [inject_Z (Z.of_nat (String.length s))].
+Definition enc_loaded (x : loaded Q) : list Q :=
+  enc_str (l_id x) ++ [match l_class x with LADevice => 0 | LSDevice => 1 end] ++ enc_cube (Loader.l_bounds x) ++
+  match l_cb x with Some cb => 1 :: List.concat (map enc_cb cb) | None => [0] end ++
+  List.concat (map (fun kv => enc_str (fst kv) ++ [snd kv]) (l_params x)) ++ enc_opt (fst (l_clip x)) ++ enc_opt (snd (l_clip x)).
+Definition enc_lout (r : outcome (loaded Q)) : list Q := match r with Accept v => 0 :: enc_loaded v | RaiseValueError => [1] | RaiseOther => [2] end.
+Definition enc_louts (r : outcome (list (loaded Q))) : list Q := match r with Accept v => 0 :: List.concat (map enc_loaded v) | RaiseValueError => [1] | RaiseOther => [2] end.
+Definition bdevs : list (bdev Q) :=
+  List.concat (map (fun k => List.concat (map (fun ti => List.concat (map (fun bn => map (fun cm =>
+    {| b_kind := k; b_title := ti; b_bounds := bn; b_cum := cm;
+       b_params := [("capacity"%string, 8); ("chargeRateClippingFactor"%string, 3#2); ("efficiencyFactor"%string, 1#2); ("unknown"%string, 7);
+                    ("disChargeRateClippingFactor"%string, 2); ("deepDepthRatio"%string, 1#4); ("fastChargeCostFactor"%string, 1)] |})
+    [None; Some [(0%nat, (1, 4)); (2%nat, (0, 3))]])
+    [[(0%nat, (1, 2)); (2%nat, (-1, 3))]; [(0%nat, (1, 1)); (1%nat, (2, 2))]; [(0%nat, (1, 1)); (1%nat, (2, 3))]; [(1%nat, (0, 1))]; [(0%nat, (2, 1))]]))
+    [None; Some "abc"%string])) [BLoad; BFixed; BSupply; BStorage]).
 Definition ons : list (list nat) := [[]; [1; 2]; [0; 0; 4; 5]; [3; 9]; [2; 1]; [1; 3; 2; 4]; [5; 5; 0; 1; 3; 3]]%nat.
 '''
 BATTERIES['Loaders'] = [
@@ -225,6 +244,8 @@ BATTERIES['Loaders'] = [
   ('run_to_cbounds_array', 'List.concat (map (fun b => List.concat (map (fun l => List.concat (map enc_cb (@M@.run_to_cbounds_array_gen b l))) runsP)) [0%nat; 1%nat; 5%nat; 8%nat])'),
   ('care2bounds', 'List.concat (map (fun m => List.concat (map (fun b => enc_cube (@M@.care2bounds_gen m b)) bnds)) masks)'),
   ('on2bounds', 'List.concat (map (fun l => List.concat (map (fun on => List.concat (map (fun b => enc_cube (@M@.on2bounds_gen l on b)) bnds)) ons)) [6%nat; 3%nat; 0%nat])'),
+  ('load_<kind>_device', 'List.concat (map (fun d => enc_lout (@M@.load_device_gen 3 d)) bdevs)'),
+  ('load_data', 'enc_louts (@M@.load_data_gen 3 (firstn 3 bdevs)) ++ enc_louts (@M@.load_data_gen 3 (firstn 1 bdevs ++ firstn 1 (skipn 22 bdevs) ++ firstn 2 (skipn 40 bdevs) ++ firstn 1 (skipn 60 bdevs))) ++ enc_louts (@M@.load_data_gen 3 (firstn 2 (skipn 64 bdevs) ++ firstn 1 (skipn 20 bdevs))) ++ enc_louts (@M@.load_data_gen 3 [])'),
 ]
 EXTRA = {'Loaders': LOADERS, 'Solve': SOLVE, 'Constraints': KIDS + CONS, 'DeviceSet': KIDS, 'MFDeviceSet': KIDS, 'Functions': KIDS}
 NAMES = {'projection': 'Projection', 'thermal': 'Thermal', 'deviceset': 'DeviceSet', 'mfdeviceset': 'MFDeviceSet', 'functions': 'Functions', 'classes': 'Classes', 'storage': 'Storage', 'constraints': 'Constraints', 'solve': 'Solve', 'utils': 'Utils', 'loaders': 'Loaders'}
